@@ -64,6 +64,13 @@ def gen_desc(verif_seed: int, i: int, tier: str = "quick") -> dict:
         "accesses": rng.randint(6, 30),
         "doc_fault": fault,
     }
+    r2 = random.Random(rs ^ 0xBAD)
+    if fault is None and r2.random() < 0.2:
+        # one deliberately damaged operation: it must be reported as a schema error naming its path, every other
+        # operation stays offered and unchanged
+        kinds = ["missing_ref_param", "param_without_in", "missing_ref_schema", "missing_ref_body", "parameters_not_list", "param_null"]
+        plain = [k for k in gen.op_keys(udesc) if "/notes" not in k]
+        udesc["malformed"] = {"op": r2.choice(plain), "kind": r2.choice(kinds[:4] * 3 + kinds[4:])}
     sched = gen.gen_schedule(rng, fault_free=rng.random() < 0.15)
     if sched.get("kind") != "default":
         sched["p_line"] = rng.choice([0.01, 0.05, 0.2])
@@ -95,7 +102,9 @@ RULE_TEXT = (
     "as_state_machine, response-schema resolution) under line-level pre-emption of specs/openapi/{schemas,_cache,references}.py, "
     "or (run) a whole engine run with 1-4 workers; documents are single- or three-file ($ref'd path items, relative refs "
     "fetched from the simulated peer, optional fetch fault), served as JSON or YAML with unquoted status codes / on-off keys / "
-    "date-like scalars, with path-level parameters overriding or extending operation-level ones; every returned operation is "
+    "date-like scalars, with path-level parameters overriding or extending operation-level ones, in a fifth of the universes one "
+    "deliberately damaged operation (unresolvable parameter/schema/body reference, parameter without `in`, parameters that are "
+    "not a list, a null parameter) that must be reported with its path while all others stay offered; every returned operation is "
     "compared with the reference effective-parameter table; non-trivial = >= 5 look-ups checked (callers) or >= 5 requests "
     "(run); distinct = distinct (access-sequence digest, switch digest) / (event, wire) digests"
 )
@@ -104,7 +113,7 @@ ASSUMPTIONS = [
     "definitions carry single-value enum markers so that the definition in use is visible in the schema object and on the wire",
     "multi-file universes use operationId links only",
 ]
-EXPECTED_PROBES = ["callers", "run", "multi", "yaml", "yaml_quirks", "doc_fault", "by_id", "by_ref", "by_path", "iter", "lock_contended"]
+EXPECTED_PROBES = ["callers", "run", "multi", "yaml", "yaml_quirks", "doc_fault", "by_id", "by_ref", "by_path", "iter", "lock_contended", "malformed_entry"]
 
 
 def fired_faults(desc: dict, res: dict) -> dict:
@@ -119,6 +128,9 @@ def fired_faults(desc: dict, res: dict) -> dict:
         out["yaml_quirks"] = 1
     if st.get("doc_fault_fired"):
         out["doc_fault"] = 1
+    if u.get("malformed"):
+        out["malformed_entry"] = 1
+        out["malformed:" + u["malformed"]["kind"]] = 1
     for k, n in (st.get("accesses") or {}).items():
         out[k] = n
     lc = (res.get("sched") or {}).get("probes", {}).get("lock_contended")
@@ -303,6 +315,10 @@ class C08Profile(Profile):
         def caller(idx: int) -> None:
             for kind, k in plans[idx]:
                 refop = refops[k]
+                if refop.malformed and kind in ("by_path", "by_id", "by_ref", "resp_schema"):
+                    continue  # a look-up of the damaged operation may legitimately raise
+                if kind == "state_machine" and u.desc.get("malformed"):
+                    continue  # building the state machine over a document with a damaged operation may legitimately raise
                 try:
                     if kind == "iter":
                         with it_lock:
@@ -349,7 +365,7 @@ class C08Profile(Profile):
                     elif kind == "statistic":
                         note("statistic")
                         stat = schema.statistic
-                        if stat.operations.total != len(refops):
+                        if stat.operations.total != len(refops) and not u.desc.get("malformed"):
                             bad("statistic_total", f"statistic reports {stat.operations.total} operations, the document defines {len(refops)}", "statistic")
                     elif kind == "state_machine":
                         note("state_machine")
